@@ -220,6 +220,14 @@ fn run_once<T: Sc, F: Factory<T>>(
                         let b = &log2[t.ev_from.min(log2.len())..t.ev_to.min(log2.len())];
                         if a == b && t.termination == f.termination {
                             n_opt = Some(k);
+                            // Ok or Err, the result carries the state the optimizer left:
+                            // the statistics only read the model
+                            if st.snap.is_some() && st2.snap.is_some() && st.snap != st2.snap {
+                                rep.violate(sc, "STATS_IDENTITY", "FitWithStatistics/problem-state", "the problem returned by fit_with_statistics is not in the state the optimizer left it in".into());
+                            }
+                            if f.evaluations != t.evaluations || f.objective.bits() != t.objective.bits() {
+                                rep.violate(sc, "STATS_IDENTITY", "FitWithStatistics/report", "the report returned by fit_with_statistics differs from the optimizer's".into());
+                            }
                         } else {
                             rep.probe("fit_tap_divergence");
                         }
